@@ -83,14 +83,9 @@ func vRunSvcScenario(sc vSvcScenario) (*vSvcRun, []vDMViolation) {
 	prov := sdk.AccAddress([]byte("verif-provider-00000")).String()
 	owner := sdk.AccAddress([]byte("verif-tenant-0000000")).String()
 	lease := mtypes.LeaseID{Owner: owner, DSeq: 21, GSeq: 1, OSeq: 1, Provider: prov}
-	bus := pubsub.NewBus()
+	bus := venv.QuietBus(pubsub.NewBus())
 	svcEnded := false
-	defer func() {
-		// see vDMState.cleanup: the bus of a service that has not ended is left open
-		if svcEnded {
-			bus.Close()
-		}
-	}()
+	defer bus.Close() // a QuietBus: see vDMState.cleanup
 	ctx, cancel := context.WithCancel(context.Background())
 	defer cancel()
 	cl := &vSvcClient{vScriptedCluster: vScriptedCluster{Client: NullClient(), g: g}}
@@ -280,6 +275,7 @@ func vRunSvcScenario(sc vSvcScenario) (*vSvcRun, []vDMViolation) {
 	select {
 	case <-svc.Done():
 		svcEnded = true
+		_ = svcEnded
 	case <-time.After(vSvcTimeout):
 		note("service did not shut down")
 	}
